@@ -37,6 +37,10 @@ the names in OPTIONAL_FEATURES switch them back on:
   "file-scope-nesting" nested control structure and `try` statements at file scope
   "risky-tests"        `if`/`=>`/`while` tests beyond scalar arithmetic (otherwise stored in a Boolean first)
   "nested-try", "nested-exnval", "rich-throw-arg", "singleton-bracket", "seq-in-and", "int-dom-param"
+  "fold-overflow"      constant machine-integer arithmetic that overflows when folded
+  "fold-min"           constant machine-integer arithmetic whose folded value is -2^63 (at -Q2 and above the
+                       peep-hole pass does not terminate on `a + K`/`a - K` for such K: most_negative_operand)
+  "bare-const-body", "ret-callee-in-gen"   the two -Q2 compiler faults (corpus q2-*)
 """
 import concurrent.futures, json, os, re, resource, shutil, subprocess, tempfile, time
 from vlib import common
@@ -124,6 +128,60 @@ def static_counts(prog):
             walk(y)
     walk(prog)
     return c
+
+MI_MIN = -2**63
+
+def most_negative_operand(prog):
+    """True if the program has `a + K`, `K + a` or `a - K` on machine integers where K is a constant
+    expression the compiler folds to -2^63 (directly, through a constant, or through a local with a single
+    definition) and `a` is not constant.  The peep-hole pass (of_peep.c, peepPositive) rewrites `a + K`
+    to `a - (-K)` for negative K; -K is again -2^63, so at -Q2 and above it never finishes.  The literal
+    -2^63 itself is rendered as the library constant `min`, which is not folded.  Used only to name the
+    cause of an observed time-out at an optimisation level, so it may over-approximate."""
+    defs, multi = {}, set()
+    def collect(n):
+        if not isinstance(n, list): return
+        if n and isinstance(n[0], str):
+            if n[0] in ("const", "decl") and len(n) == 4 and isinstance(n[1], str):
+                if n[1] in defs: multi.add(n[1])
+                defs[n[1]] = (n[2], n[3])
+            elif n[0] == "assign" and len(n) == 3 and isinstance(n[1], str):
+                multi.add(n[1])
+            elif n[0] in ("for", "forin", "forgen") and isinstance(n[1], str):
+                multi.add(n[1])
+        for c in n: collect(c)
+    collect(prog)
+    wrap = lambda v: (v + 2**63) % 2**64 - 2**63
+    def cv(e, depth=0):
+        if not isinstance(e, list) or not e or depth > 40: return None
+        t = e[0]
+        if t == "mi" and isinstance(e[1], int):
+            return ("lit", e[1])
+        if t == "var" and len(e) == 2 and e[1] in defs and e[1] not in multi and defs[e[1]][0] == "mi":
+            r = cv(defs[e[1]][1], depth + 1)
+            return None if r is None else (("opaque", r[1]) if r == ("lit", MI_MIN) else r)
+        if t == "un" and e[1] in ("neg", "abs"):
+            a = cv(e[2], depth + 1)
+            if a is None or a[0] == "opaque": return None
+            return ("fold", wrap(-a[1] if e[1] == "neg" else abs(a[1])))
+        if t == "bin" and e[1] in ("add", "sub", "mul"):
+            a, b = cv(e[2], depth + 1), cv(e[3], depth + 1)
+            if a is None or b is None or "opaque" in (a[0], b[0]): return None
+            x, y = a[1], b[1]
+            return ("fold", wrap(x + y if e[1] == "add" else x - y if e[1] == "sub" else x * y))
+        return None
+    def is_min(e):
+        return cv(e) == ("fold", MI_MIN)         # ("lit", MI_MIN) is written `min`: not folded
+    found = []
+    def walk(n):
+        if not isinstance(n, list): return
+        if len(n) == 4 and n[0] == "bin" and n[1] in ("add", "sub"):
+            a, b = n[2], n[3]
+            if is_min(b) and cv(a) is None: found.append(n)
+            elif n[1] == "add" and is_min(a) and cv(b) is None: found.append(n)
+        for c in n: walk(c)
+    walk(prog)
+    return bool(found)
 
 def features_of(prog):
     """static features: the set of tags (and operators, literal kinds) occurring in the tree"""
@@ -328,7 +386,7 @@ ALL_FEATURES = ("mi", "int", "bool", "str", "list", "arr", "rec", "uni", "closur
                 "exit", "return", "exn", "overload", "macro", "dom", "default", "deadstore")
 OPTIONAL_FEATURES = ("error", "toplevel-exnval", "uncaught", "file-scope-nesting", "int-dom-param",
                      "risky-tests", "nested-try", "rich-throw-arg", "singleton-bracket", "seq-in-and", "nested-exnval", "return-in-try", "dcall-var-in-try",
-                     "loopvar-test-try", "fold-overflow", "bare-const-body", "ret-callee-in-gen")
+                     "loopvar-test-try", "fold-overflow", "fold-min", "bare-const-body", "ret-callee-in-gen")
 
 MI_POOL = [0, 1, -1, 2, 3, 5, 7, 10, 16, 100, 255, 1000, 65535, 2**31 - 1, 2**31, -2**31, 2**32, 2**32 + 1,
            2**62, 2**63 - 1, -2**63, -2**63 + 1, 2**63 - 2, -(2**62), 3037000500, 4294967296 * 3 + 1,
@@ -558,10 +616,14 @@ class Gen:
     def no_fold_overflow(self, e):
         """a constant machine-integer expression whose exact value leaves the word is replaced by the
         wrapped literal (opt-in "fold-overflow" keeps it)"""
-        if self.on("fold-overflow"): return e
         v = self.cval(e)
-        if v is not None and not (-2**63 <= v < 2**63) and e[0] != "mi":
-            w = (v + 2**63) % 2**64 - 2**63
+        if v is None or e[0] == "mi": return e
+        w = (v + 2**63) % 2**64 - 2**63
+        if w == -2**63 and not self.on("fold-min"):
+            # finding q2-folded-overflow-hang: what hangs the peep-hole pass is a *folded* constant equal to
+            # -2^63 next to `+`/`-` (overflow or not); the literal is rendered as the library constant `min`
+            return mi(w)
+        if not (-2**63 <= v < 2**63) and not self.on("fold-overflow"):
             return mi(w)
         return e
 
